@@ -287,8 +287,7 @@ def run(ctx):
                 ctx.check(np.all(pr > 0), 'pagerank_centrality:positive', 'not positive', case)
         # exact instance (default prior, dyadic d)
         if n <= 6:
-            dq = F(int(r.choice([1, 2, 3, 27])), 4 if False else 1)
-            dq = {1: F(1, 2), 2: F(3, 4), 3: F(1, 8), 27: F(27, 32)}[int(dq)]
+            dq = [F(1, 2), F(3, 4), F(1, 8), F(27, 32)][int(r.randint(0, 4))]
             Aq = fq_mat(A); deg = [sum(Aq[i][j] for i in range(n)) for j in range(n)]
             B = [[(1 if i == j else 0) - dq * Aq[i][j] / deg[j] for j in range(n)] for i in range(n)]
             rp = fsolve(B, [[(1 - dq) / n] for _ in range(n)])
@@ -317,7 +316,10 @@ def run(ctx):
             ctx.fail('subgraph_centrality:raises', 'raised %r' % (e,), case)
         case = {'fn': 'eigenvector_centrality_und', 'family': fam, 'A': A.tolist()}
         ctx.case(case, nontrivial=bool(np.any(A)))
-        for Aw in ([Af] if fam != 'random_und' else [Af, Af * np.maximum(np.triu(r.randint(1, 5, (n, n)), 1) + np.triu(r.randint(1, 5, (n, n)), 1).T * 0 + 0, 1)]):
+        variants = [Af]
+        if fam == 'random_und':
+            variants.append(Af * r.randint(1, 5, (n, n)))        # weighted; symmetrised from the upper triangle below
+        for Aw in variants:
             Aw = np.triu(Aw, 1); Aw = Aw + Aw.T
             try:
                 v = call(bct.eigenvector_centrality_und, Aw.copy())
